@@ -17,6 +17,7 @@ Section Generic.
   Variable Eqv : Cfg -> St -> St -> Prop.    (* "indistinguishable from now on" *)
   Variable OutEq0 : Out -> Out -> Prop.      (* what must agree at the re-executed step *)
   Variable OutEq : Out -> Out -> Prop.       (* what must agree at every later step *)
+  Variable SavedEq : Saved -> Saved -> Prop. (* "the same state file" (equality, or pointwise equality of grids) *)
 
   Record resumable : Prop := mkResumable {
     r_inv_init : forall c, Ok c -> Inv c (m_init M c);
@@ -28,8 +29,8 @@ Section Generic.
     r_congr : forall c s s' it rel rel' i, Ok c -> Eqv c s s' -> 0 < rel -> 0 < rel' ->
       Eqv c (fst (m_step M c s it rel i)) (fst (m_step M c s' it rel' i)) /\
       OutEq (snd (m_step M c s it rel i)) (snd (m_step M c s' it rel' i));
-    r_save : forall c s s', Ok c -> Eqv c s s' -> m_save M c s = m_save M c s';
-    r_save_load : forall c s, Ok c -> Inv c s -> m_save M c (m_load M c (m_save M c s)) = m_save M c s
+    rs_save : forall c s s', Ok c -> Eqv c s s' -> SavedEq (m_save M c s) (m_save M c s');
+    rs_save_load : forall c s, Ok c -> Inv c s -> SavedEq (m_save M c (m_load M c (m_save M c s))) (m_save M c s)
   }.
 
   Definition step_out_eq (R : Out -> Out -> Prop) (a b : Z * Out) : Prop := fst a = fst b /\ R (snd a) (snd b).
@@ -102,7 +103,7 @@ Section Generic.
       OutEq0 (snd o0) (snd (hd o0 (snd B))) /\
       outs_eq (snd A) oB /\
       md_it (fst (fst A)) = md_it (fst (fst B)) /\
-      m_save M c (snd (fst A)) = m_save M c (snd (fst B)).
+      SavedEq (m_save M c (snd (fst A))) (m_save M c (snd (fst B))).
   Proof.
     intros P A B. subst P A B. unfold run, go_on, resume, state_file.
     rewrite run_from_app. cbn zeta.
@@ -124,17 +125,18 @@ Section Generic.
     destruct (bisim_tail HR c Hc h2 m1 (mod_tick (mod_load (md_it m1))) _ _ He Hm1 Hf1 (eq_sym Hf2)) as (H1 & H2 & H3).
     exists (snd r0), (md_it m1, snd so), (snd (run_from M c (mod_tick (mod_load (md_it m1))) (fst so') h2)).
     cbn [fst snd hd]. repeat split; auto.
-    apply (r_save HR); auto.
+    apply (rs_save HR); auto.
   Qed.
 
   (* saving immediately after loading reproduces the state that was loaded (as data) *)
   Theorem save_after_load (HR : resumable) c (Hc : Ok c) it0 h :
     let P := run M c it0 h in
     let f := state_file M c (fst P) in
-    state_file M c (mod_load (fst f), m_load M c (snd f)) = f.
+    let f' := state_file M c (mod_load (fst f), m_load M c (snd f)) in
+    fst f' = fst f /\ SavedEq (snd f') (snd f).
   Proof.
-    intros P f. subst f. unfold state_file, mod_save, mod_load. cbn [fst snd md_it].
-    f_equal. apply (r_save_load HR); [exact Hc|].
+    intros P f f'. subst f f'. unfold state_file, mod_save, mod_load. cbn [fst snd md_it].
+    split; [reflexivity|]. apply (rs_save_load HR); [exact Hc|].
     subst P. unfold run. apply run_from_inv; auto. apply (r_inv_init HR); auto. unfold mod_rel, mod_init; cbn; lia.
   Qed.
 
@@ -153,3 +155,10 @@ Section Generic.
     cbn [fst snd]. auto.
   Qed.
 End Generic.
+
+Arguments r_inv_init {Cfg St In Out Saved M Ok Inv Eqv OutEq0 OutEq SavedEq} _.
+Arguments r_inv_step {Cfg St In Out Saved M Ok Inv Eqv OutEq0 OutEq SavedEq} _.
+Arguments r_reexec {Cfg St In Out Saved M Ok Inv Eqv OutEq0 OutEq SavedEq} _.
+Arguments r_congr {Cfg St In Out Saved M Ok Inv Eqv OutEq0 OutEq SavedEq} _.
+Arguments rs_save {Cfg St In Out Saved M Ok Inv Eqv OutEq0 OutEq SavedEq} _.
+Arguments rs_save_load {Cfg St In Out Saved M Ok Inv Eqv OutEq0 OutEq SavedEq} _.
